@@ -195,7 +195,7 @@ func (nl *NodeList) Add(nl2 *NodeList) {
 	existingNodes := nl.indexNodes()
 	for i := range nl2.Nodes {
 		if n, ok := existingNodes[nl2.Nodes[i].Id]; ok {
-			existingNodes[nl2.Nodes[i].Id].Augment(n)
+			n.Augment(nl2.Nodes[i])
 		} else {
 			nl.Nodes = append(nl.Nodes, nl2.Nodes[i])
 		}
